@@ -202,7 +202,19 @@ func fromCtyNumberUInt(bf *big.Float, target reflect.Value, path cty.Path) error
 
 func fromCtyNumberFloat(bf *big.Float, target reflect.Value, path cty.Path) error {
 	switch target.Kind() {
-	case reflect.Float32, reflect.Float64:
+	case reflect.Float32:
+		// Narrow directly to float32: going through float64 first would round
+		// twice and would turn finite numbers beyond the float32 range into
+		// infinities without an error.
+		fv, accuracy := bf.Float32()
+		if accuracy != big.Exact {
+			if math.IsInf(float64(fv), 0) {
+				return path.NewErrorf("value must be between %f and %f inclusive", -math.MaxFloat32, math.MaxFloat32)
+			}
+		}
+		target.SetFloat(float64(fv))
+		return nil
+	case reflect.Float64:
 		fv, accuracy := bf.Float64()
 		if accuracy != big.Exact {
 			// We allow the precision to be truncated as part of our conversion,
